@@ -22,6 +22,7 @@ CONSTANTS Loc,       \* Loc[a] : sequence of host addresses of agent a
           MaxClose,    \* 1: agents may be closed in model checking, 0: not
           MaxData,     \* budget of application-data operations (writes and injected data datagrams)
           Lite,        \* Lite[a] : a is an ICE-lite agent
+          ForgeConflict, \* TRUE: forged requests may carry the receiver's own role, with any tie-breaker order (peer misbehaviour mid-session)
           Miss,        \* near-miss generation: names of guards switched OFF in this configuration ({} = the faithful model)
           CheckPrio    \* CheckPrio[a] : lite agent a still applies the priority rule to plain USE-CANDIDATE
 Agents == {"A","B"}
@@ -300,9 +301,11 @@ Forged(b) ==
       srcs == {NatMap[Loc[peer][k]] : k \in 1..Len(Loc[peer])} \cup {"x9"}
       tids == {0} \cup {x.tid : x \in pend[b]}
   IN {[from |-> "X", kind |-> k, src |-> s, dst |-> NatMap[l], tid |-> t, uc |-> u, rolea |-> ra,
-       user |-> us, key |-> ky, prio |-> HostPrio, tbc |-> 1, copy |-> 0, nom |-> 0] :
+       user |-> us, key |-> ky, prio |-> HostPrio, tbc |-> tc, copy |-> 0, nom |-> 0] :
         k \in {"req", "succ", "err", "ind", "other"},    \* "other": any class with a non-Binding method
-        s \in srcs, t \in tids, u \in BOOLEAN, ra \in {role[peer]},
+        s \in srcs, t \in tids, u \in BOOLEAN,
+        ra \in (IF ForgeConflict THEN {"controlling", "controlled"} ELSE {role[peer]}),
+        tc \in (IF ForgeConflict THEN {0 - 1, 0, 1} ELSE {1}),
         \* 0: another string altogether; a negative number: a string built from that generation's ufrag that is not it
         \* (extended, truncated, an extra segment) - a USERNAME that resembles the right one is as wrong as any other
         us \in {<<gen[b], rgen[b]>>, <<gen[b], 0>>, <<0, rgen[b]>>, <<0 - gen[b], rgen[b]>>, <<gen[b], 0 - rgen[b]>>, <<0 - gen[b], 0 - rgen[b]>>},
